@@ -235,7 +235,9 @@ def state_hash():
     return vp0.rng_state_hash()
 
 
-def run_one(case, with_dask, sched=None, out_dir=None):
+def run_one(case, with_dask, sched=None, out_dir=None, meta_exec=None):
+    """meta_exec: how many probe instances one run of the sequential path executed (what the metadata run of the
+    parallel path, which works on a deep copy of the caller's processor, executes too)"""
     import dask
     import pyxel
     import verif_probes_c07 as vp
@@ -274,8 +276,11 @@ def run_one(case, with_dask, sched=None, out_dir=None):
             if trace and all(c.get("data") for c in cells):
                 # with an execution trace: every entry says which instances ran for it; the metadata run works on
                 # the caller's processor (on its unpickled copy when the caller's objects went through pickle)
+                # (a deep copy of the caller's processor; the caller's objects are the unpickled ones under "pre")
                 tr = [c["data"][len(names)] for c in cells]
-                expected = sum(len(t) for t in tr) + (len(tr[0]) if sched.get("pre") else nmod)
+                tasks_pickled = bool(sched) and sched.get("scheduler") == "processes"
+                expected = sum(len(t) for t in tr) + (len(tr[0]) if not tasks_pickled else
+                                                      meta_exec if meta_exec is not None else nmod)
             res["executions"] = vp.EXEC["n"]
             cells[0]["mem"] += abs(vp.EXEC["n"] - expected)
         if out_dir is not None:
@@ -351,7 +356,10 @@ def handle_obs(case):
             out_dir = os.path.abspath(f"c07_out_{k}")
             shutil.rmtree(out_dir, ignore_errors=True)
         np.random.seed(case.get("global_seed", 12345))
-        dasks.append(run_one(case, True, sched, out_dir))
+        meta_exec = None
+        if case.get("pipe") and seq.get("cells") and seq["cells"][0].get("data"):
+            meta_exec = len(seq["cells"][0]["data"][len(case["params"])])
+        dasks.append(run_one(case, True, sched, out_dir, meta_exec))
     return dict(seq=seq, dask=dasks)
 
 
